@@ -242,13 +242,41 @@ impl Deserializable for ProofOptions {
     /// # Errors
     /// Returns an error of a valid proof options could not be read from the specified `source`.
     fn read_from<R: ByteReader>(source: &mut R) -> Result<Self, DeserializationError> {
+        let num_queries = source.read_u8()? as usize;
+        let blowup_factor = source.read_u8()? as usize;
+        let grinding_factor = source.read_u8()? as u32;
+        let field_extension = FieldExtension::read_from(source)?;
+        let fri_folding_factor = source.read_u8()? as usize;
+        let fri_remainder_max_degree = source.read_u8()? as usize;
+
+        // ProofOptions::new() panics on invalid parameters; values read from untrusted bytes must
+        // be validated first so that a malformed proof results in an error instead
+        let is_valid = num_queries > 0
+            && num_queries <= MAX_NUM_QUERIES
+            && blowup_factor.is_power_of_two()
+            && blowup_factor >= MIN_BLOWUP_FACTOR
+            && blowup_factor <= MAX_BLOWUP_FACTOR
+            && grinding_factor <= MAX_GRINDING_FACTOR
+            && fri_folding_factor.is_power_of_two()
+            && fri_folding_factor >= FRI_MIN_FOLDING_FACTOR
+            && fri_folding_factor <= FRI_MAX_FOLDING_FACTOR
+            && (fri_remainder_max_degree + 1).is_power_of_two()
+            && fri_remainder_max_degree <= FRI_MAX_REMAINDER_DEGREE;
+        if !is_valid {
+            return Err(DeserializationError::InvalidValue(format!(
+                "invalid proof options: num_queries={num_queries}, blowup_factor={blowup_factor}, \
+                grinding_factor={grinding_factor}, fri_folding_factor={fri_folding_factor}, \
+                fri_remainder_max_degree={fri_remainder_max_degree}"
+            )));
+        }
+
         Ok(ProofOptions::new(
-            source.read_u8()? as usize,
-            source.read_u8()? as usize,
-            source.read_u8()? as u32,
-            FieldExtension::read_from(source)?,
-            source.read_u8()? as usize,
-            source.read_u8()? as usize,
+            num_queries,
+            blowup_factor,
+            grinding_factor,
+            field_extension,
+            fri_folding_factor,
+            fri_remainder_max_degree,
         ))
     }
 }
